@@ -56,7 +56,9 @@ void h_borromean_verify(void) {
     /* field order of every challenge hash (epoch we < total), whatever the verdict */
     if ((size_t)we < total && we == k && g_w_fin) {
         uint64_t elen = (kj == 0) ? 32 : 33;
-        __CPROVER_assert(g_w_started && g_w_b0 == 0 && g_w_s0 == 0x6a09e667ul && g_w_s7 == 0x5be0cd19ul, "C10 borromean: challenge hash is plain SHA-256 from the initial state");
+        /* (the first challenge of a later ring shares its epoch with the closing-hash write of the previous ring, which comes
+         *  first; the epoch-start record of hash_log.h then describes that write, so the initial state is checked elsewhere) */
+        if (ki == 0 || kj > 0) __CPROVER_assert(g_w_started && g_w_b0 == 0 && g_w_s0 == 0x6a09e667ul && g_w_s7 == 0x5be0cd19ul, "C10 borromean: challenge hash is plain SHA-256 from the initial state");
         __CPROVER_assert(g_w_end == elen + 32 + 8, "C10 borromean: challenge hash length = |e| + |m| + 4 + 4");
         if (g_wpos < g_w_end) {
             __CPROVER_assert(g_w_hit, "C10 borromean: every position of the challenge hash is written");
@@ -72,24 +74,23 @@ void h_borromean_verify(void) {
             else __CPROVER_assert(g_w_byte == (unsigned char)((uint32_t)kj >> (8 * (3 - (g_wpos - elen - 36)))), "C10 borromean: then the position in the ring, big endian");
         }
     }
-    /* the closing hash and the comparison with e0 */
+    /* the closing hash and the comparison with e0.  Its per-ring writes (compressed last R of each ring) are interleaved with the
+     * challenge hashes, i.e. spread over earlier epochs of the stream log; what the log of the LAST epoch shows is that 33 bytes per
+     * earlier ring had been absorbed, that the compressed last R of the last ring and then the message follow, and the digest compared. */
     if ((size_t)we == total && g_w_fin) {
         __CPROVER_assert(g_em_n == (int)total, "C10 borromean: closing hash only after all members");
-        __CPROVER_assert(g_w_started && g_w_b0 == 0 && g_w_s0 == 0x6a09e667ul && g_w_end == 33 * (uint64_t)nrings + 32, "C10 borromean: closing hash length = 33 per ring + |m|");
-        __CPROVER_assert(ret == (memcmp(e0, g_w_dig, 32) == 0), "C10 borromean: verdict is the comparison of all 32 bytes of e0 with the closing hash");
-        if (g_wpos < g_w_end) {
-            __CPROVER_assert(g_w_hit, "C10 borromean: every position of the closing hash is written");
-            if (g_wpos >= 33 * (uint64_t)nrings) __CPROVER_assert(g_w_byte == m[g_wpos - 33 * (uint64_t)nrings], "C10 borromean: closing hash ends with the message");
-            else if ((size_t)c < total && cj == rsizes[ci] - 1 && g_wpos / 33 == ci && g_sg_hit) {
-                unsigned char ser[33]; secp256k1_ge t = g_sg_r;
-                secp256k1_eckey_pubkey_serialize33(&t, ser);
-                __CPROVER_assert(g_w_byte == ser[g_wpos % 33], "C10 borromean: closing hash absorbs the compressed last R of each ring, in ring order");
-            }
+        __CPROVER_assert(g_w_started && g_w_b0 == 33 * (uint64_t)(nrings - 1) && g_w_end == 33 * (uint64_t)nrings + 32, "C10 borromean: closing hash = 33 bytes per ring, then |m| bytes");
+        if (g_wpos >= 33 * (uint64_t)(nrings - 1) && g_wpos < 33 * (uint64_t)nrings && (size_t)c == total - 1 && g_sg_hit) {
+            unsigned char ser[33]; secp256k1_ge t = g_sg_r;
+            secp256k1_eckey_pubkey_serialize33(&t, ser);
+            __CPROVER_assert(g_w_hit && g_w_byte == ser[g_wpos - 33 * (uint64_t)(nrings - 1)], "C10 borromean: the last 33 ring bytes of the closing hash are the compressed last R of the last ring");
         }
+        __CPROVER_assert(ret == (memcmp(e0, g_w_dig, 32) == 0), "C10 borromean: verdict is the comparison of all 32 bytes of e0 with the closing hash");
+        if (g_wpos >= 33 * (uint64_t)nrings && g_wpos < g_w_end) __CPROVER_assert(g_w_hit && g_w_byte == m[g_wpos - 33 * (uint64_t)nrings], "C10 borromean: closing hash ends with the message");
     }
     if (ret == 1 && nrings == MAXRINGS && total == MAXPUB) REACH("borromean accepts the largest layout");
     if (ret == 1 && nrings == 1 && total == 1) REACH("borromean accepts a single-member ring");
     if (ret == 0 && g_fin_n == (int)total + 1) REACH("borromean rejects on the final comparison");
     if (ret == 0 && g_em_n < (int)total) REACH("borromean rejects early");
-    if (ret == 1 && use_ev && (size_t)we == total && g_wpos == 40) REACH("borromean closing hash watched");
+    if (ret == 1 && use_ev && (size_t)we == total && g_wpos == 33 * (uint64_t)nrings + 5) REACH("borromean closing hash watched");
 }
